@@ -621,6 +621,15 @@ class OpaqueArr(SV):
             return ArrNeg(self)
         return NotImplemented
 
+    def pvc_iter(self, I):
+        if len(self.shape) != 1:
+            raise Unsupported("iteration over a multi-dimensional array")
+        z = self.z
+        return SSeq(self.shape[0], lambda i: SReal(arr_el(z, i)), "flat entries")
+
+
+arr_el = z3.Function("flat_entry", Arr, z3.IntSort(), R)
+
 
 class ArrNeg(SV):
     def __init__(self, arr):
@@ -657,7 +666,7 @@ class Mahalanobis(Contract):
         base_any = npm.attrs["any"]
         npm.attrs["array"] = Builtin("np.array", lambda I2, a, k: a[0] if isinstance(a[0], OpaqueArr) else (_ for _ in ()).throw(Unsupported("np.array")))
         npm.attrs["any"] = Builtin("np.any", lambda I2, a, k: wrap(anyneg_f(a[0].arr.z)) if isinstance(a[0], ArrNeg) else base_any.fn(I2, a, k))
-        X = SObj("Data", {}, "X")
+        X = OpaqueArr(z3.Const("Xarr", Arr), (SInt(n), SInt(P.fresh_int("n_features"))), "X")
         return Call([obj, X], {}, obj=obj, X=X, old=dict(obj.fields), n=n, s=s)
 
     def post(self, I, call, outcome):
